@@ -12,8 +12,16 @@ DATA_RULE = "sessions of 30-200 redis commands (46 write, 39 read commands of th
 DATA_TRUST = ["protocol `data` is oracle-only at this stage: no Lean driver speaks it; the theorems are about abstract models whose codec / batching hypotheses are tied to the code by C12's theorems and by regenerated facts, not by a differential run", 'server layer (namespace lookup, router order, reply type switch, merge dispatch) is re-stated in the harness (marked SERVER-EMU)', 'read paths use the wall clock: expiry instants are kept decades away from the real clock; boundary behaviour is exercised on write paths only']
 
 RAFT_RULE = '256 (quick) / 4800 (thorough) sessions of <= 300 schedule events on 1-5 REAL raft.Node instances (MemoryStorage, one goroutine, StepNode/Advance) with and without a learner, all four preVote x checkQuorum settings: ticks, campaigns, proposals, deliveries picked by position from the pool of every message ever sent (duplication, reordering, loss), partitions, crash + RestartNode from the storage object between events and inside a Ready (nothing persisted / everything persisted and nothing sent / leader Ready sent before the persist / entries without hard state), leader transfer, compaction so that lagging followers get MsgSnap; every event is mapped to abstract actions (event table of DESIGN.md section 7 C02) and checked by the Lean certificate, then the abstract nodes (term, role, commit, term of every log index, vote of the current term, durable term / vote / commit as read back from the storage object) are compared with the real ones; directed vote schedules (a voter enters a term without voting, optionally becomes pre-candidate, gets the MsgVote of two candidates of that term, optionally restarts in between) are generated with targeted deliveries and replayed from corpus/C01; non-trivial = an event whose certificate line was checked; distinct = distinct op lines'
-RAFT_TRUST = ['the event table (harness/cmd/zvh/proto_raft.go) that maps events of the real nodes to abstract actions is trusted to name the right action; a wrong table shows up as a rejected certificate on the unchanged tree, not as a false acceptance of a different protocol step only as far as the state comparison after every event sees it', "membership changes, ReadIndex, RocksStorage and node/raft.go's goroutines are outside this protocol", 'single-voter groups: the certificate places the persist before the node acts on its own ack (what an application that persists before applying does; node/raft.go does not: known finding F1 under C06)']
-RAFT_PARTIAL = ['global theorems are for FIXED membership; dynamic membership (add / remove / promote, learners promoted) is exercised by no theorem (DESIGN.md section 7 C01 R)', 'the universal forward simulation from an executable model of raft.go to the abstract system is replaced by the run-time refinement certificate (per-run, not for all runs)']
+RAFT_TRUST = ['the event table (harness/cmd/zvh/proto_raft.go) that maps events of the real nodes to abstract actions is trusted to name the right action; a wrong table shows up as a rejected certificate on the unchanged tree, not as a false acceptance of a different protocol step only as far as the state comparison after every event sees it', "ReadIndex, RocksStorage and node/raft.go's goroutines are outside these protocols; membership changes are outside protocol raft (certificate) and are exercised by protocol raftcc, which is judged by the implementation-level oracle only: its harness re-states what node/raft.go processReady and node/node.go applyEntries do with a committed conf change (waitApply hand-off through ConfChangedCh/HandleConfChanged, background ApplyConfChange after the new-leader Ready, ConfState kept for snapshots, destroy after the own removal, replayWAL-style restart) - marked in harness/cmd/zvh/proto_raftcc.go", 'single-voter groups: the certificate places the persist before the node acts on its own ack (what an application that persists before applying does; node/raft.go does not: known finding F1 under C06)']
+RAFTCC_RULE = ('oracle-only sessions (44 per seed, quick; 400, thorough) of <= 460 / 900 schedule events on REAL raft.Node groups whose membership CHANGES: a universe of 3-7 nodes, 1-5 initial voters bootstrapped with StartNode(peers), every other node started as a joining node (StartNode without peers, as learner for addl) when a conf change names it; '
+               'ProposeConfChange (add voter, add learner, promote, remove a member, remove the leader, update) on the leader or any node; committed conf changes applied the way node/raft.go + node/node.go do (inside the raft loop\'s waitApply through ConfChangedCh/HandleConfChanged before the messages of the Ready are sent; in the background through ApplyConfChange after the new-leader Ready, consumed by a later StepNode; '
+               'self-removal destroys the node without sending the Ready), ConfState of ApplyConfChange kept for the application\'s snapshots (snapshot at the applied index, compaction 0-2 entries behind it), paginated hand-out (MaxCommittedSizePerReady / MaxSizePerMsg of 0, 30, 40, 120, 200 bytes or unlimited), hand-out withheld (moreEntriesToApply=false), '
+               'crash + restart at arbitrary points and inside a Ready (nothing / everything / entries without hard state persisted; new-leader Ready sent before the persist) with the storage rebuilt as replayWAL does (snapshot ConfState + entries above it + hard state), RestartNode and ElectionTick-1 ticks queued at once, the first Ready left unconsumed so that ticks / Campaign arrive while committed conf changes are unapplied; '
+               'scenarios: grow 1->3 and 3->5, shrink, replace, learner + promotion (+ transfer / campaign aimed at the learner), change while a node is isolated / restarting / behind a snapshot (MsgSnap carries the new ConfState), restart with unapplied conf changes behind ordinary entries followed by Campaign / election time-outs on both sides of a partition, stuck apply loop, remove the leader, '
+               'conf change committed inside the new-leader Ready of a single-voter group, torn persist of an append that carries one or two conf changes followed by a campaign of that node, chaos mixes with duplication / reordering / loss; directed schedules are replayed from corpus/C0x/raftcc-*.txt; '
+               'oracle: two leaders of one term, learner leads or grants a (pre-)vote, vote not durable / two votes in one term, ConfState returned by ApplyConfChange and raft\'s progress maps = fold of the applied conf changes, hand-out gap-free and identical per index on all nodes, an index reported committed (durable HardState.Commit) with one entry only, every committed entry in the log of every later leader, no panic; '
+               'non-trivial = op answered by a running node; distinct = distinct op lines')
+RAFT_PARTIAL = ['global theorems are for FIXED membership; dynamic membership (add voter / add learner / promote / remove / update, one at a time) is covered by NO theorem and NO certificate: it is exercised on real raft.Node groups by protocol raftcc and judged by the implementation-level oracle only (testing level: the schedules explored, not all schedules; DESIGN.md section 7 C01 R)', 'the universal forward simulation from an executable model of raft.go to the abstract system is replaced by the run-time refinement certificate (per-run, not for all runs)']
 
 DATACORE_RULE = ("sessions of 20-100 well-formed hash commands (hset, hsetnx, hmset with repeated fields, hdel with repeated fields, hclear; hget, hmget, hlen, hgetall, hkeys, hvals, hexists, hkeyexist) on 2-5 keys over two tables (names that are prefixes of each other, contain ':', 0x00) "
                  "x 7 fields (incl. the empty field, binary, prefix-related) x 5 values, on a REAL KVNode (real leader-side handlers, proposal, kvStoreSM apply) under the local-deletion layout, mem and pebble engines; EVERY answer line (write replies, read replies, the logical dump) is compared with the executable Lean storage model running the real key codec; "
@@ -58,13 +66,15 @@ CHECKS = {
     'C01': dict(
         gens=['Raft'],
         props='ZanVerif.Props.C01',
-        protos=[dict(name='raft', mode='cert', quick_seeds=2, thorough_seeds=6, classes='(two-leaders-one-term|learner-leader|vote-not-durable|two-votes-one-term|panic)')],
-        rule=RAFT_RULE,
+        protos=[dict(name='raft', mode='cert', quick_seeds=2, thorough_seeds=6, classes='(two-leaders-one-term|learner-leader|vote-not-durable|two-votes-one-term|panic)'),
+                dict(name='raftcc', mode='oracle', quick_seeds=10, thorough_seeds=12, env={'ZV_RAFTCC_SALT': '1'},
+                     classes='(two-leaders-one-term|learner-leader|learner-vote|vote-not-durable|two-votes-one-term|confstate-mismatch|panic)')],
+        rule=RAFT_RULE + ' || raftcc (membership changes, oracle only): ' + RAFTCC_RULE,
         trusted=RAFT_TRUST,
         partial=RAFT_PARTIAL,
-        assumptions=['fixed voter list'],
+        assumptions=['fixed voter list (theorems, certificate); protocol raftcc: at most one conf change in flight is what raft itself enforces (pendingConf), replica ids are never re-used after a removal, a removed replica is destroyed once it applied its own removal'],
         level_text='Theorems: Election Safety of the abstract raft with crashes for EVERY schedule and ANY fixed voter list (two elected nodes of one term are equal; two leaders in one term are equal), a second message-level proof, quorum overlap over the REGENERATED quorum size for every group size, and two properties of the REGENERATED canVote disjunction (no second vote within a term, pre-votes only for strictly higher terms). Real runs are tied to the abstract system by the run-time refinement certificate (executable step checker proved sound in C02) on every event of real raft.Node runs, plus an implementation-level oracle (two leaders in one term, learner as leader, a granted vote released while the stored HardState does not hold it, two votes of one node in one term across restarts).',
-        level_note='fixed membership only; learners are nodes outside the voter list',
+        level_note='theorems and certificate: fixed membership only (learners are nodes outside the voter list); membership changes: oracle-only runs of protocol raftcc (two known panics on the way, see known_findings.json)',
         technique='Lean 4 proof (inductive invariants, any schedule) + per-run refinement certificate over real raft.Node runs + regenerated decision expressions',
     ),
     'C02': dict(
@@ -72,25 +82,29 @@ CHECKS = {
         props=['ZanVerif.Props.C02', 'ZanVerif.Props.C02Log'],
         protos=[dict(name='raft', mode='cert', quick_seeds=2, thorough_seeds=6, classes='(applied-mismatch|commit-mismatch|panic)'),
                 dict(name='raftlog', quick_seeds=6, thorough_seeds=25),
-                dict(name='rocksvote', mode='oracle', quick_seeds=3, thorough_seeds=6, classes='vote-(granted-to-stale-candidate|differs-by-storage)')],
-        rule=RAFT_RULE,
+                dict(name='rocksvote', mode='oracle', quick_seeds=3, thorough_seeds=6, classes='vote-(granted-to-stale-candidate|differs-by-storage)'),
+                dict(name='raftcc', mode='oracle', quick_seeds=10, thorough_seeds=12, env={'ZV_RAFTCC_SALT': '2'},
+                     classes='(applied-mismatch|commit-mismatch|panic|harness-assumption|harness)')],
+        rule=RAFT_RULE + ' || raftcc (membership changes, oracle only): ' + RAFTCC_RULE,
         trusted=RAFT_TRUST,
         partial=RAFT_PARTIAL,
-        assumptions=['fixed voter list'],
+        assumptions=['fixed voter list (theorems, certificate); protocol raftcc: at most one conf change in flight is what raft itself enforces (pendingConf), replica ids are never re-used after a removal, a removed replica is destroyed once it applied its own removal'],
         level_text="Theorems, for EVERY schedule and ANY fixed voter list (snapshots, heartbeat commits, stale acks, crashes included): Log Matching, Leader Completeness, State Machine Safety (committed prefixes of any two nodes agree) and its over-time form (never replaced); the model's quorum size, up-to-date rule and commit guard are proved equal to the expressions REGENERATED from raft/raft.go and raft/log.go; the executable certificate checker is proved sound (accepted action list => reachable state), so every real run it accepts is an execution of the proved system. Every event of the real-node runs is certified and the abstract state compared with the real state; oracle: applied-mismatch, committed-lost, commit-mismatch on the real nodes.",
-        level_note="fixed membership only; the node driver's hand-out contiguity (newReady/Advance) is proved on a four-field abstraction in ZanVerif/Raft/Handout.lean and not tied differentially",
+        level_note="theorems and certificate: fixed membership only; membership changes: oracle-only runs of protocol raftcc; the node driver's hand-out contiguity (newReady/Advance) is proved on a four-field abstraction in ZanVerif/Raft/Handout.lean and not tied differentially",
         technique='Lean 4 proof (layered inductive invariants over an abstract raft with crashes) + sound executable certificate checker folded over real raft.Node runs',
     ),
     'C03': dict(
         gens=['Raft'],
         props='ZanVerif.Props.C03',
-        protos=[dict(name='raft', mode='cert', quick_seeds=2, thorough_seeds=6, classes='(committed-lost|panic)')],
-        rule=RAFT_RULE,
+        protos=[dict(name='raft', mode='cert', quick_seeds=2, thorough_seeds=6, classes='(committed-lost|panic)'),
+                dict(name='raftcc', mode='oracle', quick_seeds=10, thorough_seeds=12, env={'ZV_RAFTCC_SALT': '3'},
+                     classes='(committed-lost|commit-mismatch|panic)')],
+        rule=RAFT_RULE + ' || raftcc (membership changes, oracle only): ' + RAFTCC_RULE,
         trusted=RAFT_TRUST,
         partial=RAFT_PARTIAL,
-        assumptions=['fixed voter list'],
+        assumptions=['fixed voter list (theorems, certificate); protocol raftcc: at most one conf change in flight is what raft itself enforces (pendingConf), replica ids are never re-used after a removal, a removed replica is destroyed once it applied its own removal'],
         level_text='Theorems over the abstract raft with durable copies and created-vs-sent records: what a node has committed is in the log of every leader of a later term in EVERY later state of EVERY execution with crashes of any subset of nodes at any points; committed prefixes are never replaced over time; commit records are stable; reachable witnesses with a follower crash that loses an entry and its unsent ack and a leader crash right after committing. Real runs with crash/RestartNode between events and inside a Ready are certified event by event and compared with the abstract state.',
-        level_note="the liveness clause ('eventually applied by every live replica') is not a safety statement: not covered; persist order hard state before entries / snapshot without hard state are excluded torn modes (counted in the evidence)",
+        level_note="theorems and certificate: fixed membership only; membership changes (restart from a snapshot whose ConfState is older than committed conf changes, torn persists of conf change entries): oracle-only runs of protocol raftcc; the liveness clause ('eventually applied by every live replica') is not a safety statement: not covered; persist order hard state before entries / snapshot without hard state are excluded torn modes (counted in the evidence)",
         technique='Lean 4 proof (durable/volatile twins of the invariants, flush and crash steps) + per-run refinement certificate with injected crashes',
     ),
     'C15': dict(
